@@ -37,8 +37,8 @@ def view_box(draw):
         w = draw(st.integers(16, 1200)) / 2
         h = draw(st.integers(16, 1200)) / 2
     else:
-        x = draw(st.sampled_from([0, 0, -20, 15.5, -100, 30, -7.25, 250, -64]))
-        y = draw(st.sampled_from([0, 0, -10, 7.25, 50, -60, -33.5, 120, -64]))
+        x = draw(st.sampled_from([0, 0, -20, 15.5, -100, 30, -7.25, 250, -64, -0.5, 0.25]))
+        y = draw(st.sampled_from([0, 0, -10, 7.25, 50, -60, -33.5, 120, -64, -0.5, 0.75]))
         w = draw(st.sampled_from([100, 128, 24, 200, 64, 300, 1000, 48.5, 10]))
         h = draw(st.sampled_from([100, 128, 24, 150, 64, 80, 500, 36, 10]))
     return Box(float(x), float(y), float(w), float(h))
@@ -215,6 +215,17 @@ def _group(draw, cx, depth):
     return g
 
 
+def _spell_viewbox(draw, cx, nums):
+    """Legal spellings of a viewBox: comma and/or whitespace separators, leading zero of a fraction omitted
+    (.5, -.5) as minifiers write it."""
+    toks = [fmt(v) for v in nums]
+    if draw(st.booleans()):
+        toks = [("-" if t.startswith("-") else "") + t.lstrip("-")[1:] if t.lstrip("-").startswith("0.") else t for t in toks]
+        if any(t.lstrip("-").startswith(".") for t in toks):
+            cx.feat.add("viewBox-leading-dot")
+    return draw(st.sampled_from([" ", " ", ",", ", ", "  "])).join(toks)
+
+
 @st.composite
 def placed_doc(draw):
     vb = draw(view_box())
@@ -223,7 +234,7 @@ def placed_doc(draw):
         root = node("svg", {"width": fmt(vb.w), "height": fmt(vb.h)})
         cx.feat.add("no-viewBox-attr")
     else:
-        root = node("svg", {"viewBox": f"{fmt(vb.x)} {fmt(vb.y)} {fmt(vb.w)} {fmt(vb.h)}"})
+        root = node("svg", {"viewBox": _spell_viewbox(draw, cx, [vb.x, vb.y, vb.w, vb.h])})
     for _ in range(draw(st.integers(1, 5))):
         if cx.n >= 8:
             break
